@@ -318,6 +318,20 @@ def directed_c17(quick, K):
                 add(cfgname, "rs-%s-%d" % (t, i),
                     [run1(act(1, 1, "rec", 1), act(2, 3, t), order=[1] * i + [2] * 30)] + lifecycle_tail(pods),
                     "rec1|%d|%s" % (i, t))
+    # a running consumer of the group terminates gracefully while another pod is bound into the group / onto the node,
+    # or while its group mate completes
+    for cfgname in ("pairn", "pairx", "pairm"):
+        if CFGS[cfgname]["kinds"][2] == "cons":
+            add(cfgname, "term3-rec",
+                [{"n": "env", "e": "PodTerminating", "p": 3, "g": 0}, run1(act(1, 1, "rec", 1)), {"n": "check"},
+                 run1(act(1, 3, "sync")), {"n": "check"}, run1(act(1, 2, "rec", 2)), run1(act(1, 3, "syncnode")), {"n": "check"},
+                 run1(act(1, 4, "hdl", 3, "PodDeleted")), run1(act(1, 3, "sync")), {"n": "check"}],
+                "PodTerminating(3),rec1,sync,rec2,syncnode,PodDeleted(3)")
+        add(cfgname, "term1-mate",
+            [run1(act(1, 1, "rec", 1), act(2, 2, "rec", 2)), {"n": "env", "e": "PodRunning", "p": 1, "g": 0}, {"n": "env", "e": "PodRunning", "p": 2, "g": 0},
+             {"n": "env", "e": "PodTerminating", "p": 1, "g": 0}, run1(act(1, 4, "hdl", 2, "PodCompleted")), {"n": "check"},
+             run1(act(1, 3, "sync")), {"n": "check"}, run1(act(1, 4, "hdl", 1, "PodDeleted")), run1(act(1, 3, "sync")), {"n": "check"}],
+            "rec1+rec2,PodRunning,PodTerminating(1),PodCompleted(2),sync,PodDeleted(1)")
     # three operations on one group: X holds the group mutex, Y really blocks in it, X releases, Z arrives while Y is inside
     for x_ev in ("PodDeleted", "PodCompleted"):
         for (y, z) in ((2, 1), (1, 2)):
@@ -333,6 +347,13 @@ def directed_c17(quick, K):
         add(cfgname, "life-deleted",
             [run1(act(1, 1, "rec", 1)), {"n": "env", "e": "PodRunning", "p": 1, "g": 0}, run1(act(1, 4, "hdl", 1, "PodDeleted")),
              run1(act(1, 3, "sync")), {"n": "check"}], "rec1,PodRunning(1),PodDeleted(1)")
+        # graceful termination: the pod keeps running with a deletion timestamp while its group / node is synced,
+        # another reconcile of the node runs, and only then disappears
+        for t in ("sync", "syncnode"):
+            add(cfgname, "life-terminating-" + t,
+                [run1(act(1, 1, "rec", 1)), {"n": "env", "e": "PodRunning", "p": 1, "g": 0}, {"n": "env", "e": "PodTerminating", "p": 1, "g": 0},
+                 run1(act(1, 3, t)), {"n": "check"}, run1(act(1, 4, "hdl", 1, "PodDeleted")), run1(act(1, 3, "sync")), {"n": "check"}],
+                "rec1,PodRunning(1),PodTerminating(1),%s,PodDeleted(1)" % t)
         add(cfgname, "brdel",
             [run1(act(1, 1, "rec", 1), faults=[{"a": 1, "k": K[cfgname] - 2, "f": "fail"}]), run1(act(1, 4, "hdl", 1, "BRDeleted")),
              run1(act(1, 3, "sync")), {"n": "check"}], "rec1,Fail@create/Binding,BRDeleted(1)")
